@@ -466,9 +466,9 @@ func (g *Gen) lookupContract(callerPkg *types.Package, pkgPath, name, full strin
 }
 
 func (g *Gen) resolve(x *Exec, cc *ssa.CallCommon) *target {
-	callerPkg := x.fn.Pkg.Pkg
-	if x.fn.Pkg == nil {
-		callerPkg = nil
+	var callerPkg *types.Package
+	if x.fn.Pkg != nil {
+		callerPkg = x.fn.Pkg.Pkg
 	}
 	if cc.IsInvoke() {
 		t := cc.Value.Type()
@@ -639,6 +639,9 @@ func (g *Gen) inlinable(x *Exec, f *ssa.Function) bool {
 	}
 	if !inModule(fp) && f.Synthetic == "" {
 		return false
+	}
+	if fp != nil && !inModule(fp) {
+		return false // instantiations / wrappers of functions of other modules (e.g. atomic.Pointer[T].Load): external
 	}
 	// modularity: only helpers of the package under verification, generated protobuf accessors and synthetic
 	// wrappers are inlined; anything else needs a contract.
